@@ -178,6 +178,8 @@ def run(src, tier, seed):
     else:
         res.bad(r, 'dispatch', fx.loc(gi), 'Interpret::getInterpolants no longer chooses the path form exactly when there is more than one mask')
     ps_labelling_rule(fx, res)
+    import idxrule
+    idxrule.index_rule(fx, res)
     return res
 
 
